@@ -6,6 +6,7 @@ Definition with refuted witnesses; it is covered by the differential run:
 real code vs extracted model (bit for bit) and vs the reference formatter of
 coq/DigitModelSpec.v (exact decimal expansion, round-half-even)."""
 import json
+import math
 import random
 
 import vlib
@@ -14,6 +15,70 @@ from props import digitlib as dl
 PROP = "C10"
 PROP_V = "Properties_C10.v"
 PREFIXES = ["-", "-", "-", dl.units("ab"), dl.units("x=1.5;"), dl.units("9"), dl.units("0.")]
+
+
+_COMBOS = None
+
+
+def early_drop_combos():
+    """(positive_exp, precision) of doubles below 1 for which realToString drops at least three whole 64-bit words
+    early and only a short final shift (34..41 bits, the minimum reachable at precision <= 40) remains:
+    simulation of the loop bounds only"""
+    global _COMBOS
+    if _COMBOS is not None:
+        return _COMBOS
+    res = []
+    p5 = 5 ** 27
+    for pe in range(60, 1075, 1):
+        for pp in range(0, 41):
+            digits = (pe * 30103) // 100000 + 1
+            needed = digits + pp + 1
+            fl0 = 52 + pe
+            if fl0 <= needed:
+                continue
+            shift = fl0 - needed
+            if shift < 64:
+                continue
+            b = (1 << 52) | 0x5A5A5A5A5A5A5
+            times = needed
+            max_index = pp // 19 + 2
+            drops = 0
+            while times >= 27:
+                b *= p5
+                if (b.bit_length() - 1) // 64 >= max_index and shift >= 64:
+                    b >>= 64
+                    shift -= 64
+                    drops += 1
+                times -= 27
+            if drops >= 3 and shift <= 41:
+                res.append((pe, pp))
+    _COMBOS = res
+    return res
+
+
+def dyadic5(rng, n):
+    """m / 2^k below 1 whose decimal expansion has a 5 at position p+1, non-zero digits below it, and few enough
+    digits that all of them are in the stream (no bits dropped): the sticky test over the lower digits decides"""
+    out = []
+    tries = 0
+    while len(out) < n and tries < 200000:
+        tries += 1
+        k = rng.randrange(4, 40)
+        m = rng.randrange(1, 1 << min(k, 30)) | 1
+        dec = str(m * 5 ** k).rjust(k, "0")
+        if len(dec) > k:
+            continue
+        x = m / float(1 << k)
+        mant, ex = math.frexp(x)
+        pe = 1 - ex
+        if pe <= 0:
+            continue
+        digits = (pe * 30103) // 100000 + 1
+        for j in range(1, k):
+            if dec[j - 1] == "5" and k <= digits + j and pe + (m.bit_length() - 1) == k:
+                out.append((x, j - 1))
+                break
+    return out
 
 
 def gen_cases(rng, tier, boost=1):
@@ -51,19 +116,16 @@ def gen_cases(rng, tier, boost=1):
         nd = rng.randrange(2, 16)
         j = rng.randrange(0, nd - 1)
         hi = dl.rand_digits(rng, nd - j - 1)
-        lo = rng.choice(["0" * j, "0" * j, dl.rand_digits(rng, j, False) if j else ""])
+        lo = rng.choice(["0" * j, dl.rand_digits(rng, j, False) if j else "", (rng.choice("123456789") + "0" * (j - 1)) if j else ""])
         v = int(hi + "5" + lo)
         cases.append("F 0 0 %d %d -" % (nd - j - 1, dl.dbits(float(v))))
         if j >= 1:
             cases.append("F 0 %d %d %d -" % (rng.choice([1, 2]), 0, dl.dbits(v / float(1 << 1))))
         dist["int5"] += 1
-    combos = []
-    for pe in range(20, 1075):
-        for pp in range(0, 41):
-            digits = (pe * 30103) // 100000 + 1
-            sh = 52 + pe - (digits + pp + 1)
-            if sh >= 64 and sh % 64 in (0, 1, 2) and digits + pp + 1 >= 54:
-                combos.append((pe, pp))
+    for (x, pp) in dyadic5(rng, ntie // 2):
+        cases.append("F 0 %d %d %d -" % (rng.choice([1, 2]), pp, dl.dbits(x)))
+        dist["dyadic"] += 1
+    combos = early_drop_combos()
     for _ in range(2 * ntie):
         pe, pp = rng.choice(combos)
         be = 1023 - pe
@@ -146,9 +208,9 @@ def check(tier):
     }
     rep.assumptions = [
         "theorems are about coq/DigitModel.v; the C++ is tied by gen/Tables_digit.v and the finite differential run reported here",
-        "the claim 'text = printf reference for every double and precision' is NOT proved: it is refuted for the classes KF-C10b / KF-C10c and only tested elsewhere",
+        "the claim 'text = printf reference for every double and precision' is NOT proved (Definition c10_real_matches_reference): after findings/D48 and D49 no counterexample is known; it is tested against the exact reference on every generated case",
         "BigInt is abstracted to its value (no overflow observed: the model reports an explicit error otherwise)",
-        "requires findings/D33, D41, D42, D46 applied to /repo",
+        "describes /repo with findings/D28, D33, D41..D46, D48, D49 applied (all fix: commits)",
     ]
     return rep.finish()
 
